@@ -74,8 +74,8 @@ namespace VM.Values
 
 /-- type.go:58-145: (JSON type, format) inferred from the Go kind -/
 def goTypeInfo : NumKind → String × String
-  | .int b => ("integer", if b == 64 then "int64" else "int32")
-  | .uint b => ("integer", if b == 64 then "int64" else "int32")
+  | .int b => ("integer", if b == 64 || b == 0 then "int64" else "int32")
+  | .uint b => ("integer", if b == 64 || b == 0 then "int64" else "int32")
   | .float b => ("number", if b == 64 then "float64" else "float32")
 
 /-- type.go:164-209 for a numeric value of kind `k`: `true` = type error -/
